@@ -304,6 +304,9 @@ func optionsCase(r *rand.Rand) string {
 		s += " coe=1"
 	}
 	if r.Intn(3) == 0 {
+		s += " rel=1"
+	}
+	if r.Intn(3) == 0 {
 		n := 1 + r.Intn(3)
 		hs := make([]string, n)
 		for i := range hs {
